@@ -54,7 +54,11 @@ def parseTemplate (j : Json) : Except String Template := do
       return Exec.mk (← getChars e "target") (← parseEnv (← e.getObjVal? "args"))
     return ⟨name, idx, params, .workflow steps execute⟩
   else
-    return ⟨name, idx, params, .component (← parseVal (← j.getObjVal? "args")) (← optChars j "env")⟩
+    let agg ← match j.getObjVal? "aggregate" with
+      | .ok (Json.bool b) => pure b
+      | _ => pure false
+    return ⟨name, idx, params, .component (← parseVal (← j.getObjVal? "args")) (← optChars j "env")
+      (← optChars j "replicate") agg⟩
 
 def parseNs (j : Json) : Except String Namespace := do
   let uvars ← match j.getObjVal? "userVars" with
@@ -71,7 +75,7 @@ def jerr : ErrLoc → Json
 
 def jotok : OTok → Json
   | .lit s => jobj [("l", jchars s)]
-  | .dref p f m => jobj [("d", jchars p), ("f", jloc f), ("m", jchars m)]
+  | .dref st p f m => jobj [("st", jnat st), ("d", jchars p), ("f", jloc f), ("m", jchars m)]
 
 def jtok : Tok → Json
   | .lit s => jobj [("l", jchars s)]
@@ -87,7 +91,7 @@ def jenv : EnvVal → Json
   | .dict d => jobj [("k", jstr "dict"), ("d", jchars d)]
 
 def jcomp (c : Comp) : Json :=
-  jobj [("loc", jloc c.loc), ("name", jchars c.name), ("args", jarr (c.args.map jotok)),
+  jobj [("loc", jloc c.loc), ("stage", jnat c.stage), ("name", jchars c.name), ("replica", jbool c.replica), ("args", jarr (c.args.map jotok)),
         ("refs", jarr (c.refs.map jotok)), ("producers", jarr (c.producers.map jloc)), ("env", jenv c.env)]
 
 def oldBehaviour (ns : Namespace) : Json :=
@@ -105,6 +109,17 @@ def oldBehaviour (ns : Namespace) : Json :=
           ("names_valid", jbool (names.all validName)),
           ("split_differs", jbool (refs.any fun l => (splitOld locs l).map (·.1) != (split locs l).map (·.1)))]
 
+/-- the answers of `can_template_replicate` with the memo dictionaries threaded through the components in the
+order of the calls (= visit order), next to the memo-free answers -/
+def replicaAnswers (ns : Namespace) : Json :=
+  match ns.find ns.entry with
+  | none => Json.null
+  | some t =>
+    let insts := (rootVisit ns t).insts
+    jobj [("memo", jarr ((replicasM insts {} insts).map jbool)),
+          ("plain", jarr (insts.map fun i => jbool (isReplica insts i))),
+          ("locs", jarr (insts.map fun i => jloc i.loc))]
+
 def handle (j : Json) : Except String Json := do
   let op ← getStr j "op"
   match op with
@@ -118,7 +133,12 @@ def handle (j : Json) : Except String Json := do
     return jobj (res ++ [("spec", jarr (spec.map fun s => jobj [("loc", jloc s.loc), ("args", jarr (s.args.map jtok)),
                                      ("env", jopt (fun v => jarr (v.map jtok)) s.env)])),
                          ("edges", jarr ((specEdges spec).map fun e => jarr [jloc e.1, jloc e.2])),
-                         ("old", oldBehaviour ns)])
+                         ("old", oldBehaviour ns), ("replicas", replicaAnswers ns)])
+  | "parse_name" =>
+    let n ← getChars j "name"
+    return match parseName n with
+      | some (st, nm) => jobj [("stage", jnat st), ("name", jchars nm)]
+      | none => jobj [("none", jbool true)]
   | "roman" =>
     let n ← getNat j "n"
     return jobj [("roman", jchars (roman n))]
